@@ -1,10 +1,15 @@
 package replay
 
 import (
+	"context"
+	"path/filepath"
+	"sync"
 	"testing"
 	"time"
 
+	"github.com/pojntfx/stfs/pkg/cache"
 	"github.com/pojntfx/stfs/pkg/config"
+	"github.com/pojntfx/stfs/pkg/fs"
 )
 
 // KNOWN (open) C11-partial-reader-keeps-drive-locked: documents the behaviour; passes while the defect is
@@ -28,5 +33,71 @@ func TestKnown_C11_PartialReaderKeepsDriveLocked(t *testing.T) {
 		t.Skipf("defect no longer present: Mkdir returned %v while a partly read handle is open", err)
 	case <-time.After(2 * time.Second):
 		t.Logf("Mkdir blocks while a handle that has read 1 of 10 bytes is open (the restore goroutine is parked on the pipe holding the drive)")
+	}
+}
+
+// overlapProbe wraps the real metadata persister: the first lookup of "/d" parks until released, and the probe
+// records how many lookups were in flight at once. Two calls that both hold the io lock can never overlap.
+type overlapProbe struct {
+	config.MetadataPersister
+	mu       sync.Mutex
+	inflight int
+	max      int
+	parked   bool
+	entered  chan struct{}
+	release  chan struct{}
+}
+
+func (p *overlapProbe) GetHeader(ctx context.Context, name string) (*config.Header, error) {
+	p.mu.Lock()
+	p.inflight++
+	if p.inflight > p.max {
+		p.max = p.inflight
+	}
+	park := !p.parked && name == "/d"
+	if park {
+		p.parked = true
+	}
+	p.mu.Unlock()
+	if park {
+		close(p.entered)
+		<-p.release
+	}
+	h, err := p.MetadataPersister.GetHeader(ctx, name)
+	p.mu.Lock()
+	p.inflight--
+	p.mu.Unlock()
+	return h, err
+}
+
+// fixed: C11-create-looks-up-parent-outside-lock: STFS.Create looked up the parent in the index before the io lock was
+// taken, i.e. concurrently with calls that hold the lock (deterministic schedule: Stat is parked inside its lookup).
+func TestFinding_C11_CreateLooksUpParentUnderLock(t *testing.T) {
+	e := newFS(t, "", false, config.PipeConfig{})
+	e.init(t)
+	if err := e.stfs.Mkdir("/d", 0o755); err != nil {
+		t.Fatal(err)
+	}
+	probe := &overlapProbe{MetadataPersister: e.p, entered: make(chan struct{}), release: make(chan struct{})}
+	md := config.MetadataConfig{Metadata: probe}
+	f := fs.NewSTFS(e.readOps, e.writeOps, md, config.CompressionLevelFastestKey,
+		func() (cache.WriteCache, func() error, error) {
+			return cache.NewCacheWrite(filepath.Join(e.dir, "wc"), config.WriteCacheTypeMemory)
+		},
+		false, false, func(*config.Header) {}, stfsLogger{})
+	statDone := make(chan struct{})
+	go func() { f.Stat("/d"); close(statDone) }()
+	<-probe.entered // Stat holds the io lock and is inside its index lookup
+	createDone := make(chan struct{})
+	go func() { f.Create("/missing/x"); close(createDone) }()
+	select {
+	case <-createDone:
+	case <-time.After(500 * time.Millisecond):
+	}
+	close(probe.release)
+	<-statDone
+	<-createDone
+	if probe.max > 1 {
+		t.Errorf("%d index lookups were in flight at once: Create used the index while Stat held the io lock", probe.max)
 	}
 }
